@@ -42,6 +42,7 @@ struct VerifAccess {
   static void setUsed(Message* m, bool u) { m->m_usedByCondition = u; }
   static void setLastPoll(Message* m, time_t t) { m->m_lastPollTime = t; }
   static std::vector<Message*>& vec(MessageMap* mm) { return mm->m_pollMessages.c; }
+  static Condition* cond(MessageMap* mm, const std::string& key) { auto it = mm->m_conditions.find(key); return it == mm->m_conditions.end() ? nullptr : it->second; }
 };
 
 class NullResolver : public Resolver {
@@ -77,16 +78,19 @@ struct Live {
   Message* probe;
   MessageMap* other;          // as MainLoop::m_newlyDefinedMessages: shares only the file-static g_lastPollOrder
   unsigned int otherOps;
+  unsigned int condNo;
   unsigned int lineNo;
   string defLine(int i, int prio = -1) const {
-    char b[128]; snprintf(b, sizeof b, "r%d,cir,m%d,,,08,b509,0d%02x00,,,UCH", prio < 0 ? cfg->prios[i] : prio, i + 1, i + 1); return b;
+    int p = prio < 0 ? cfg->prios[i] : prio;
+    char pc[4] = ""; if (p > 0) snprintf(pc, sizeof pc, "%d", p);      // priority 0: a read message without poll priority
+    char b[128]; snprintf(b, sizeof b, "r%s,cir,m%d,,,08,b509,0d%02x00,,,UCH", pc, i + 1, i + 1); return b;
   }
   bool readLine(const string& l, bool replace = false) {
     std::istringstream is(l); vector<string> row; string e;
     return map->readLineFromStream(&is, "p.csv", false, &lineNo, &row, &e, replace, nullptr, nullptr) == RESULT_OK;
   }
   Message* lookup(int i) { char b[16]; snprintf(b, sizeof b, "m%d", i + 1); return map->find("cir", b, "*", false); }
-  explicit Live(const Cfg* c) : cfg(c), lineNo(0) {
+  explicit Live(const Cfg* c) : cfg(c), condNo(0), lineNo(0) {
     g_now = T0;
     resolver = new NullResolver();
     map = new MessageMap(false, "", false);
@@ -135,6 +139,7 @@ static vector<Input> alphabet(const Cfg& c) {
     else if (k == 'p') { for (int m = 1; m <= c.n; m++) for (int p : c.setPrios) v.push_back({'p', m, p}); }
     else if (k == 'R') v.push_back({'R', 0, 0});
     else if (k == 'v') { for (int p : c.setPrios) v.push_back({'s', c.n, p}); }   // priority changes of one victim (the last message) only
+    else if (k == 'E') { /* no input: asks for the exact (forked) extraction */ }
     else if (k != 'p' && k != 'v' && k != 'x' && k != 'R') for (int m = 1; m <= c.n; m++) {
       if (k == 's') { for (int p : c.setPrios) v.push_back({'s', m, p}); }
       else v.push_back({k, m, 0});
@@ -162,11 +167,15 @@ static int apply(Live& L, const Input& in) {
     }
     case 'a': L.map->addPollMessage(false, L.msgs[in.m - 1]); return 0;
     case 'f': L.map->addPollMessage(true, L.msgs[in.m - 1]); return 0;
-    case 'c': {   // the two calls SimpleCondition::resolve makes on the referenced message
-      Message* m = L.msgs[in.m - 1];
-      m->setUsedByCondition();
-      L.map->addPollMessage(true, m);
-      return 0;
+    case 'c': {   // the real path: a (new, value-less) condition that refers to the message is defined and resolved:
+                  // MessageMap::resolveCondition -> SimpleCondition::resolve -> setUsedByCondition + addPollMessage(true, ...)
+      char name[32]; snprintf(name, sizeof name, "cm%d_%u", in.m, ++L.condNo);
+      char line[96]; snprintf(line, sizeof line, "*[%s],cir,m%d,,,,", name, in.m);
+      if (!L.readLine(line)) return 2;
+      Condition* c = VerifAccess::cond(L.map, string("p.csv:") + name);
+      if (!c) return 3;
+      string err;
+      return L.map->resolveCondition(nullptr, c, &err) == RESULT_OK ? 0 : 4;
     }
     case 'x': {   // the other map is cleared and its definition read again; every second time it is destroyed and recreated
       if (L.otherOps++ % 2) { delete L.other; L.other = nullptr; } else L.other->clear();
@@ -251,8 +260,10 @@ static string snapJson(const Snap& s) {
 // visited-key: vector order + keys relative to the global minimum (the minimum itself capped: it only matters for a
 // re-added message, which restarts at order 0) + last poll times as dense ranks (small absolute values kept)
 static string keyOf(const Snap& s, int cap) {
+  // the minimum is taken over g_lastPollOrder and the messages that are polled; a message without priority keeps its
+  // old order, which is recorded as (capped) distance behind that minimum
   unsigned int base = s.g;
-  for (unsigned int o : s.ord) base = std::min(base, o);
+  for (size_t i = 0; i < s.ord.size(); i++) if (s.prio[i] > 0) base = std::min(base, s.ord[i]);
   std::ostringstream k;
   k << "b" << std::min<unsigned int>(base, (unsigned int)cap) << "g" << (s.g - base) << "v";
   for (int v : s.vec) k << v << ",";
@@ -263,7 +274,9 @@ static string keyOf(const Snap& s, int cap) {
   for (size_t i = 0; i < s.ord.size(); i++) {
     long t = s.lp[i];
     long r = t >= 1000 ? 100 + (std::lower_bound(times.begin(), times.end(), t) - times.begin()) : t;
-    k << "|" << (s.ord[i] - base) << "," << s.prio[i] << "," << s.used[i] << "," << r;
+    long rel = (long)s.ord[i] - (long)base;
+    if (s.prio[i] == 0 && rel < -(long)cap) rel = -(long)cap - 1;
+    k << "|" << rel << "," << s.prio[i] << "," << s.used[i] << "," << r;
   }
   k << "n" << (nowIsMax ? 1 : 0);
   return k.str();
@@ -349,7 +362,7 @@ static void expandInChild(const Cfg& cfg, const vector<Input>& sigma, const vect
 
 static int cmdGraph(char** argv) {
   Cfg cfg = readCfg(argv[2]);
-  if (cfg.alpha.find_first_of("rxRp") == string::npos) return cmdGraphRestore(cfg, argv[3]);   // those need exact re-execution
+  if (cfg.alpha.find_first_of("rxRpE") == string::npos) return cmdGraphRestore(cfg, argv[3]);   // those need exact re-execution
   vector<Input> sigma = alphabet(cfg);
   std::map<string, int> seen;
   std::deque<int> queue;
@@ -467,7 +480,7 @@ static int cmdRandom(char** argv) {
   vf::Rng rng(vf::seedFromEnv());
   vector<Input> ins;
   string pert;
-  for (char k : cfg.alpha) if (k != 'n' && k != 't' && k != 'v') pert += k;
+  for (char k : cfg.alpha) if (k != 'n' && k != 't' && k != 'v' && k != 'E') pert += k;
   for (int s = 0; s < steps; s++) {
     if (!pert.empty() && rng.below(1000) < (unsigned)pertPerMille) {
       char k = pert[rng.below((unsigned)pert.size())];
